@@ -481,10 +481,9 @@ func TestVerifC30(t *testing.T) {
 	add(0, "SD", "S")
 	add(0, "AD", "A")
 	add(0, "SDS", "S")
-	add(1, "SS", "S")
 	if r.Thorough() {
+		add(1, "SS", "S")
 		add(1, "R", "R")
-		add(0, "S", "S", "S")
 		add(1, "S", "S", "S")
 		add(1, "SD", "S")
 		add(1, "SD", "A")
